@@ -62,4 +62,28 @@ CHECKS["C19"] = {
     "note": "Column convention (0-based) taken from the repository's own position tests; a lone CR is accepted as a line break or not.",
     "technique": T_EXH,
 }
+CHECKS["C08"] = {
+    "text": "Every Unicode scalar value as a one-character member name (BMP + plane boundaries quick, all thorough), every name of length <=3 over 13 special characters and the empty name; every node returned by every depth<=2 query of the 26-segment alphabet on every JSON tree with <=4 (quick) / <=5 (thorough) nodes, and by descendant/filter/reverse-slice queries on special-name documents. Per node: walking node.location reaches the identical object; location keys are normalized; path() equals the reference rendering and is in the normalized-path ABNF; find(path) returns exactly that node. Per nodelist: values()/paths()/items() agree.",
+    "ref": "DESIGN.md section 5, C08",
+    "note": "Trusted: mc/ref/paths.py (RFC 2.7) and the normalized-path ABNF interpreted by the generic engine.",
+    "technique": T_EXH,
+}
+CHECKS["C10"] = {
+    "text": "Built-ins: 71 query shapes over length/count/value on array and object documents whose children cover every JSON kind, compared with the reference evaluator. Conversions: probe functions for all 39 signatures {V,L,N}^n -> {V,L,N} (n<=2) are registered on a real environment and in the reference model; for the full product of argument shapes per parameter type (10 V x 8 N x 8 L) and 4-5 placements the multiset of (function, received arguments) recorded by the real probes must equal the reference's (ValueType: literal / single value / NOTHING; NodesType: node list with the reference nodes; LogicalType: exactly True/False) and the selected nodes must agree.",
+    "ref": "DESIGN.md section 5, C10",
+    "note": "Trusted: R3 call semantics. Argument shapes starting with '!' or '(' are excluded (open finding F-C05-1 makes them uncompilable).",
+    "technique": T_EXH,
+}
+CHECKS["C11"] = {
+    "text": "All I-Regexp pattern strings of size <=2 over 20 atoms and size 3 over 8 atoms (size 4 over 4 atoms in thorough) closed under concatenation, alternation, grouping and 6 quantifiers (7 082 patterns quick) x all subject strings of length <=2 over a 14-character alphabet (LF, CR, U+2028, |, &, ~, -, [, non-BMP) plus length 3 over a 6-character subset (427 subjects; all 2 955 in thorough), for match() and search(), with the pattern as literal and from the document; 35 invalid patterns and every non-string kind in either argument. 4.66 M (function, pattern, subject) states in quick.",
+    "ref": "DESIGN.md section 5, C11",
+    "note": "Trusted: mc/ref/iregexp.py (own recogniser + set-of-positions matcher), cross-checked against the RFC 9485 ABNF with the generic engine for every generated pattern; Unicode categories from unicodedata.",
+    "technique": T_EXH,
+}
+CHECKS["C12"] = {
+    "text": "(A) every Boolean expression tree with <=4 leaves over independent atoms (test or comparison), every &&/|| assignment, every subset of negated nodes, minimal and full parenthesisation (38 000 expressions quick, 168 000 thorough) on an 81-child truth-table document: str() must be a valid query, compile, be idempotent and select the same nodes. (B) corpus queries, all 432 slice shapes, 1 620 number spellings, names/literals over 30 000 BMP code points (all in thorough) and all <=3-character names over 13 special characters: same oracle plus canonical single-quoted literals.",
+    "ref": "DESIGN.md section 5, C12",
+    "note": "Semantic equality is decided on a complete truth table (A) or dedicated documents (B), not on all JSON values. Purely associative regroupings ((a&&b)&&c vs a&&(b&&c)) are not observable and not flagged.",
+    "technique": T_EXH,
+}
 PENDING = {}
